@@ -93,11 +93,10 @@ def gen(rng, tier):
 
 def builtin_corpus():
     L = []
-    # D18: the clause whose declaration order depended on the hash seed
-    d18 = 'p(X) :- q(Aa, Bb, Cc, Dd, Ee), r([Ee, Dd|Cc], f(Bb, Aa)), ( s(Zz, _) -> t(Yy, _) ; u(Ww, Zz) ).\n'
-    progs = [d18, 'a(X,Y) :- ( b(X) -> c(_) ; d(_) ), ( e(Y) -> f(_, Q) ; g(Q, R, _) ), h([R|_]).\n',
-             'len([], 0).\nlen([_|T], s(N)) :- len(T, N).\n', 'p :- q(foo/2).\n', 'foo(a) :- .\n']
-    noise = ['p :- q(foo/2).\n', 'true.\n', 'a(X) :- b(X),, c(X).\n', 'X :- a.\n',
+    # (the D18 clause - declaration order depended on the hash seed - is in corpus/C18/d18.json)
+    progs = ['a(X,Y) :- ( b(X) -> c(_) ; d(_) ), ( e(Y) -> f(_, Q) ; g(Q, R, _) ), h([R|_]).\n',
+             'len([], 0).\nlen([_|T], s(N)) :- len(T, N).\n', 'r(X) :- X = bar/3, s.\n', 'p(Q, X) :- q(X, [Q|Fresh]).\n']
+    noise = ['r(X) :- X = bar/3, s.\n', 'true.\n', 'p(Q) :- ( a -> b ; c ), q(foo/2).\n', 'X :- a.\n',
              'z(_, _, _) :- ( a -> b ; c ), ( d -> e ; f ), ( g -> h ; i ), w(_, _, _).\n', "'hello world'(a).\n", '', 'ok(a).\n']
     procs = []
     r = random.Random(18)
@@ -106,7 +105,6 @@ def builtin_corpus():
         procs.append({'hashseed': s, 'plan': [[pi, [r.randrange(len(noise)) for _ in range(k % 6)], MODES[k % len(MODES)]] for pi in order]})
     L.append({'kind': 'batch', 'programs': progs, 'noise': noise, 'procs': procs})
     v = lambda n: ['v', n]
-    L.append({'kind': 'decl', 'clause': {'name': 'p', 'args': [v('X')], 'body': [',', ['call', 'q', [v('Aa'), v('Bb'), v('Cc')]], ['call', 'r', [['lp', [v('Cc')], v('Bb')], ['f', 'f', [v('Aa'), ['_']]]]]]}})
     L.append({'kind': 'decl', 'clause': {'name': 'p', 'args': [v('X'), v('X'), ['_'], ['l', [v('H'), ['_']]]], 'body': ['ite', ['call', 'q', [['_'], v('H')]], ['=', v('Y'), v('X')], ['call', 'r', [v('Z'), v('Y')]]]}})
     L.append({'kind': 'decl', 'clause': {'name': 'p', 'args': [], 'body': None}})
     return L
